@@ -125,13 +125,52 @@ def F_print(ctx, lib):
     roles, d = flow.closure_roles(b)
     fe = [r for r in roles.values() if r.adaptor == "for_each"]
     ok = len(fe) == 1 and match(fe[0].receiver, C("enumerate", C("iter", F(P(1), "interpretation")))) is not None
-    ctx.ob(rule, "iterates-all-positions", ok, where=b.where(), expected="self.interpretation.iter().enumerate().for_each(..)", found=[flow.show(r.receiver)[:120] for r in roles.values()])
+    loop_form = False
     if not fe:
+        # the same iteration written as `for (pos, term) in self.interpretation.iter().enumerate() { .. }`: one loop whose only exit is the exhausted iterator
+        calls, dd = flow.all_call_exprs(b)
+        nexts = [e for bb, t, ci, e in calls if e[0] == "call" and flow.last(e[2]) == "next" and "d:ForLoop" in (t.get("exp") or [])]
+        loops = b.natural_loops()
+        exits = set()
+        for head, blocks in loops.items():
+            for bb in blocks:
+                for s_ in b.succs(bb):
+                    if s_ not in blocks and not (b.blocks[s_]["term"]["k"] == "unreachable" and not b.blocks[s_]["stmts"]):
+                        exits.add((bb, s_))
+        ok = (len(nexts) == 1 and len(loops) == 1 and len(exits) == 1 and
+              match(nexts[0][3][0], C("into_iter", C("enumerate", C("iter", F(P(1), "interpretation"))))) is not None)
+        loop_form = ok
+    ctx.ob(rule, "iterates-all-positions", ok, where=b.where(), expected="self.interpretation.iter().enumerate().for_each(..) or the same for loop", found=[flow.show(r.receiver)[:120] for r in roles.values()])
+    if not fe and not loop_form:
         return
-    cb = lib.body(fe[0].closure_def)
+    cb = lib.body(fe[0].closure_def) if fe else b
     eng = ctx.engine([lib], no_inline={"adf_bdd::datatypes::adf::VarContainer::name"})
     table = {}
     for c in shared.CLASSES:
+        if loop_form:
+            # one round of the loop: the iterator's `next` is answered with Some((pos, &term of class c)); the round ends at the back edge
+            st = symx.State()
+            POS = ("sym", "pos")
+
+            def hook(eng_, st_, frame, path, target, args, t, c=c):
+                if flow.last(target) == "next" and "d:ForLoop" in (t.get("exp") or []):
+                    return [(st_, symx.mk_adt("std::option::Option", "Some", [("0", ("tuple", (POS, shared.ref_to(st_, shared.term(c)))))]))]
+                return NotImplemented
+            eng.call_hook = hook
+            try:
+                paths = [p for p in eng.summarise(b, [shared.ref_to(st, ("sym", "self")), shared.ref_to(st, ("sym", "fmt"))], st) if p.end == "backedge"]
+            finally:
+                eng.call_hook = None
+            outs = set()
+            for p in paths:
+                writes = [e for e in p.effects if e.get("kind") == "call" and flow.last(e["resolved"]) in ("write_fmt", "write_str")]
+                lits = tuple(shared.source_literal(e["loc"]) if e.get("loc") else None for e in writes)
+                named = [e for e in p.effects if e.get("kind") == "call" and flow.fname(e["resolved"]) == "VarContainer::name"]
+                name_ok = len(named) == 1 and deep_strip(named[0]["args"][1]) == shared.var_of(POS) and symx.contains(named[0]["args"][0], lambda n: n[0] == "field" and n[2] == "ordering")
+                printed_ok = len(writes) == 2 and bool(named) and symx.contains(writes[1]["args"][1], lambda n: n == deep_strip(named[0]["result"]) or (n[0] == "app" and flow.fname(n[1]) == "VarContainer::name"))
+                outs.add((lits, name_ok, printed_ok))
+            table[c] = outs
+            continue
         st = symx.State()
         caps = flow.resolve_captures(lib, cb) or []
         capvals = []
